@@ -228,6 +228,9 @@ def gen_op(rnd, s, u):
             L = L[:1]
         if form == 'none':
             L = []
+        if rnd.random() < 0.1:
+            src = rnd.choice(nonempty) if nonempty and rnd.random() < 0.8 else holder
+            return ['children=', list(holder), [], 'view', list(src)]
         return ['children=', list(holder), L, form]
     if c < 24:
         return ['append', list(holder), x]
@@ -252,6 +255,9 @@ def gen_op(rnd, s, u):
                 (member(h) if mode == 'ba' else anchor) if 'a' in mode else None, single]
     if c < 50:
         h = list_holder()
+        big_ = [q for q in nonempty if len(_hl(s, q)) >= 3]
+        if big_ and rnd.random() < 0.6:
+            h = rnd.choice(big_)
         return ['sort', list(h), rnd.choice(['name', 'id', ['name', 'id'], ['name'], 'nosuchattr', 5, 'prio', 'prio']), rnd.random() < 0.5]
     if c < 54:
         h = list_holder()
@@ -291,6 +297,10 @@ def gen_op(rnd, s, u):
             L = L[:1]
         if form == 'none':
             L = []
+        if rnd.random() < 0.08:
+            kind_ = rnd.choice(['preds', 'succs'])
+            linked_ = [k for k in T if s['T'][k][kind_]]
+            return [rnd.choice(['preds=', 'succs=']), t, [], 'view', [kind_, rnd.choice(linked_) if linked_ else x]]
         return [rnd.choice(['preds=', 'succs=']), t, L, form]
     if c < 72:
         return [rnd.choice(['preds.append', 'succs.append']), t, x]
